@@ -100,6 +100,10 @@ func concurrentDeletionPairs(rep *vk.Report, stream string, rounds int) {
 		}
 		wit := map[string]any{"event": vk.ShortEvent(e), "deletion_request": vk.ShortEvent(k), "add_event_reported": fe, "add_request_reported": fk, "retained": shortIDs(R)}
 		if sig, why := vk.CheckInvariants(capacity, R); sig != "" {
+			if stream == "C05/pairs" && sig != "invariant/deleted-yet-retained" {
+				rep.Count("steps_breaking_only_clauses_of_C04", 1)
+				return
+			}
 			rep.Violation("concurrent/"+sig, "after Add(event) and Add(deletion request) ran concurrently: "+why, wit)
 			return
 		}
@@ -218,6 +222,43 @@ func isolationStep(capacity int, before []*mocrelay.Event, e *mocrelay.Event, af
 	return "", ""
 }
 
+// c05Concern tells whether a step that the full retention relation rejects breaks a clause
+// C05 itself states: what a deletion request removes and blocks, that it is kept, and that
+// authors are isolated. The remaining clauses of the relation (capacity, duplicates,
+// versions, the exact conditions of "reported as new") are C04's and are reported by its
+// check. An unexplained refusal is C05's business when a deletion request submitted earlier
+// names the event (it is not retained any more, or is another author's), or when another
+// author's events caused it, which is decided by a counterfactual run of the real code on
+// the same history without the other authors (only while eviction cannot have played a part).
+func c05Concern(sig string, capacity int, e *mocrelay.Event, hs []histStep, full bool) bool {
+	switch sig {
+	case "step/suppressed-inserted", "step/suppressed-flag", "step/foreign-event-removed", "step/deletion-target-kept", "invariant/deleted-yet-retained":
+		return true
+	case "step/own-event-removed", "step/inserted-event-missing":
+		return e.Kind == 5
+	case "step/new-reported-old":
+		// a block that no retained request of the author explains: C05's when a deletion
+		// request that is gone (or belongs to someone else) names the event, since the
+		// block lasts as long as the request is retained and binds its author only
+		for _, s := range hs[:len(hs)-1] {
+			if s.Event.Kind == 5 && s.Event.ID != e.ID && vk.References(s.Event, e) {
+				return true
+			}
+		}
+		if full {
+			return false
+		}
+		c := mocrelay.NewEventCache(capacity)
+		for _, s := range hs[:len(hs)-1] {
+			if s.Event.Pubkey == e.Pubkey {
+				c.Add(s.Event)
+			}
+		}
+		return c.Add(e)
+	}
+	return false
+}
+
 func TestVerif_C05(t *testing.T) {
 	rep := vk.NewReport(t, "C05", "exploration")
 	rep.Rule = "histories of 1-50 events by 2-4 authors with many deletion requests (before/after their targets, by id and by kind:pubkey:d address, with relay hints, referencing other deletion requests and other authors' events, later evicted or deleted themselves); every step judged by the retention/deletion transition relation (author isolation is part of it); histories that contain addressable events without a d tag are judged only on isolation and address-independent invariants; non-trivial = a step involving a deletion request, a suppressed event or a removal; distinct = distinct (transition class, #authors, capacity, kind, whether the target is foreign)"
@@ -239,11 +280,16 @@ func TestVerif_C05(t *testing.T) {
 			capacity = 4 + r.IntN(20)
 		}
 		steps := 1 + r.IntN(50)
+		full := false // the store has been full at an insertion: eviction may have played a part since
 		runCacheHistory(g, capacity, steps, func(c *mocrelay.EventCache, before []*mocrelay.Event, e *mocrelay.Event, flag bool, after []*mocrelay.Event, hs []histStep) bool {
 			rep.Eval(1)
 			if loose {
 				rep.Count("loose_steps", 1)
 				if sig, why := isolationStep(capacity, before, e, after); sig != "" {
+					if sig != "step/foreign-event-removed" {
+						rep.Count("steps_breaking_only_clauses_of_C04", 1)
+						return true
+					}
 					rep.Violation(sig, why, histWitness(capacity, hs))
 					return false
 				}
@@ -278,13 +324,26 @@ func TestVerif_C05(t *testing.T) {
 			if e.Kind == 5 || v.Class == "suppressed" || len(after) < len(before) {
 				rep.Nontrivial(fmt.Sprintf("%s/%d/%d/%d/%v", v.Class, len(g.Authors), capacity, e.Kind, foreign))
 			}
+			if len(before) >= capacity {
+				full = true
+			}
 			if !v.OK {
-				rep.Violation(v.Sig, v.Why, histWitness(capacity, hs))
-				return false
+				if c05Concern(v.Sig, capacity, e, hs, full) {
+					rep.Violation(v.Sig, v.Why, histWitness(capacity, hs))
+					return false
+				}
+				// the step breaks the retention relation in a clause C05 does not state
+				// (C04 judges those); the following steps are judged from the observed state
+				rep.Count("steps_breaking_only_clauses_of_C04", 1)
+				return true
 			}
 			if sig, why := vk.CheckInvariants(capacity, after); sig != "" {
-				rep.Violation(sig, why, histWitness(capacity, hs))
-				return false
+				if c05Concern(sig, capacity, e, hs, full) {
+					rep.Violation(sig, why, histWitness(capacity, hs))
+					return false
+				}
+				rep.Count("steps_breaking_only_clauses_of_C04", 1)
+				return true
 			}
 			// a retained deletion request is served like a regular event: a kinds=[5]
 			// query must list exactly the retained kind 5 events
